@@ -822,6 +822,61 @@ fn div_loop_mulsub(index: usize, num_divisor_words: usize, dividend_in: U256Muld
         assert(x * e == d_head as int * e - k as int * e) by(nonlinear_arith) requires x == d_head as int - k as int;
     }
 //@ end
+// ------------------------------------------------------------------ Knuth algorithm D, steps D5/D6 (test remainder, add back) of div_loop
+/// D5/D6 on the real code: without a borrow nothing changes; after a borrow the digit is decreased by one and the divisor is added back to the window, the carry
+/// out of the window's head word being dropped: window' == (window + V) mod B^(n+1).
+/// OBSERVATION (real code, replayed natively: U256Muldiv::div(2^255, 2^191 + 1) panics): when the window's head is the carry space (index + n == 4) the add-back path
+/// evaluates `dividend.get_word_u128(index + num_divisor_words)` = items[4] and panics (index out of bounds) before it looks at `use_carry`; such a computation does
+/// not succeed (C02 constrains successful computations only), so the contract carries the precondition "no add-back at the carry position".
+//@ seg math/u256_math.rs div_loop from=/if k > d_head \{/ to=/quotient\.update_word\(index, qhat\.lo\(\)\);/ ret=(dividend,qhat) var=dividend
+fn div_loop_addback(index: usize, num_divisor_words: usize, dividend_in: U256Muldiv, dividend_carry_space: &mut u64, divisor: U256Muldiv, qhat_in: u128, k_in: u128, d_head: u128, use_carry: bool) -> (r: (U256Muldiv, u128))
+    requires 2 <= num_divisor_words <= 4, index + num_divisor_words <= 4, use_carry == (index + num_divisor_words == 4), k_in < 0x1_0000_0000_0000_0000,
+        k_in > d_head ==> (!use_carry && qhat_in >= 1),
+    ensures ({
+        let n = num_divisor_words as int; let ix = index as int; let c0 = *old(dividend_carry_space); let c1 = *final(dividend_carry_space);
+        let w0 = window(dividend_in, c0, ix, n); let v = wsum(divisor, 0, n); let w1 = window(r.0, c1, ix, n);
+        &&& (k_in <= d_head ==> r.0 == dividend_in && c1 == c0 && r.1 == qhat_in)
+        &&& (k_in > d_head ==> r.1 == qhat_in - 1 && c1 == c0 && (w1 == w0 + v || w1 == w0 + v - qpow((n + 1) as nat))
+                && (forall|m: int| 0 <= m < 4 && (m < ix || m > ix + n) ==> r.0.items[m] == dividend_in.items[m])) }),
+//@ rewrite_for
+//@ rewrite /    if k > d_head \{\n        qhat -= 1;/ => /    let mut qhat = qhat_in; let mut k = k_in; let mut t: u128;\n    if k > d_head {\n        qhat -= 1;/
+//@ loop 0
+            invariant i_it <= num_divisor_words, 2 <= num_divisor_words <= 4, index + num_divisor_words < 4, k <= 1,
+                wsum(dividend, index as int, i_it as int) + k as int * qpow(i_it as nat) == wsum(dividend_in, index as int, i_it as int) + wsum(divisor, 0, i_it as int),
+                forall|m: int| 0 <= m < 4 && (m < index || m >= index + i_it) ==> dividend.items[m] == dividend_in.items[m],
+            decreases num_divisor_words - i_it,
+//@ inject after /^        k = 0;/
+        proof { assert(qpow(0) == 1) by(compute); }
+//@ inject before /^            t = dividend$/
+            let ghost d_before = dividend; let ghost k_before = k;
+//@ inject after /^            k = t >> U64_RESOLUTION;/
+            proof { let q = Q(); let e = qpow(i as nat); let ix = index as int; let ii = i as int; lemma_q_powers();
+                let u = d_before.items[ix + ii] as int; let vv = divisor.items[ii] as int; let w = dividend.items[ix + ii] as int;
+                assert(t >> 64 == t / 0x1_0000_0000_0000_0000u128) by(bit_vector);
+                assert(t as int == u + vv + k_before as int);
+                vstd::arithmetic::div_mod::lemma_fundamental_div_mod(t as int, q); vstd::arithmetic::div_mod::lemma_mod_bound(t as int, q);
+                assert(k as int <= 1) by(nonlinear_arith) requires t as int == q * (k as int) + w, w >= 0, t as int <= 2 * q - 1, q > 0, k as int >= 0;
+                lemma_wsum_same(dividend, d_before, ix, ii); lemma_qpow_unfold((ii + 1) as nat);
+                assert(d_before.items[ix + ii] == dividend_in.items[ix + ii]);
+                assert(w * e + k as int * (q * e) == (u + vv + k_before as int) * e) by(nonlinear_arith) requires u + vv + k_before as int == q * (k as int) + w;
+                assert((u + vv + k_before as int) * e == u * e + vv * e + k_before as int * e) by(nonlinear_arith);
+            }
+//@ inject before /^        let new_carry = dividend/
+        let ghost d_mid = dividend;
+//@ inject before /^    \}\n    \(dividend,qhat\)$/
+    proof { { let q = Q(); let n = num_divisor_words as int; let ix = index as int; let e = qpow(n as nat); lemma_q_powers(); lemma_qpow_unfold((n + 1) as nat);
+        let h0 = d_mid.items[ix + n] as int; let h1 = dividend.items[ix + n] as int;
+        vstd::arithmetic::div_mod::lemma_fundamental_div_mod(h0 + k as int, q); vstd::arithmetic::div_mod::lemma_mod_bound(h0 + k as int, q);
+        assert(h1 == (h0 + k as int) % q);
+        assert((h0 + k as int) < 2 * q);
+        let c = (h0 + k as int) / q;
+        assert(c == 0 || c == 1) by(nonlinear_arith) requires h0 + k as int == q * c + h1, 0 <= h1 < q, 0 <= h0 + k as int, (h0 + k as int) < 2 * q, q > 0;
+        lemma_wsum_same(dividend, d_mid, ix, n);
+        assert(d_mid.items[ix + n] == dividend_in.items[ix + n]);
+        assert(h1 * e == (h0 + k as int) * e - c * (q * e)) by(nonlinear_arith) requires h0 + k as int == q * c + h1;
+        assert((h0 + k as int) * e == h0 * e + k as int * e) by(nonlinear_arith);
+    } }
+//@ end
 /// Knuth 4.3.1: what the D3 postcondition means for the true quotient digit. U is the (n+1)-word window, V the normalised n-word divisor (n >= 2), written with
 /// their two resp. three leading words and a tail below them (m = n - 2 further words): U = (d0 * B + u2) * M + ut, V = (v1 * B + v2) * M + vt, 0 <= ut, vt < M.
 /// If (qhat, rhat) with qhat * v1 + rhat == d0 passes the test then (qhat - 1) * V <= U, i.e. the true digit is at least qhat - 1
